@@ -165,6 +165,11 @@ func checkC19(ctx *Ctx) {
 		}
 		jobs = append(jobs, func() { selectorE2E(ctx, B, lens, bad) })
 	}
+	// fixed outcome patterns: reject first, reject in the middle, alternate, all, none
+	for _, pat := range []map[string]bool{{"0.0": true}, {"1.1": true}, {"0.0": true, "1.2": true}, {"0.0": true, "0.1": true, "0.2": true, "0.3": true}, {}} {
+		pat := pat
+		jobs = append(jobs, func() { selectorE2E(ctx, 2, []int{4, 4}, pat) })
+	}
 	// --- splitter grid
 	maxN, maxL := 6, 3
 	if ctx.Thorough() {
@@ -368,6 +373,25 @@ func selectorE2E(ctx *Ctx, B int, lens []int, bad map[string]bool) {
 	}
 	if strings.Join(gotRows, US) != model {
 		ctx.Res.Disagree(Violation{What: fmt.Sprintf("IPSelectorSync forwarded %q, the model says %q", quote(strings.Join(gotRows, US)), quote(model)), Class: "c19.selector", Witness: lens})
+	}
+	// the property on the real result, whatever the model says: exactly the aligned tuples whose members all pass
+	wantRows := []string{}
+	for i := 0; i < lens[0]; i++ {
+		row := []string{}
+		ok := true
+		for k := range lens {
+			it := strings.Split(cols[k], GS)[i]
+			if strings.Contains(it, "BAD") {
+				ok = false
+			}
+			row = append(row, it)
+		}
+		if ok {
+			wantRows = append(wantRows, strings.Join(row, GS))
+		}
+	}
+	if strings.Join(gotRows, US) != strings.Join(wantRows, US) {
+		ctx.Res.Violate(Violation{What: fmt.Sprintf("IPSelectorSync forwarded the tuples %s; the aligned tuples whose members all pass are %s", quote(strings.Join(gotRows, US)), quote(strings.Join(wantRows, US))), Class: "c19.selector-tuples", Witness: map[string]interface{}{"lens": lens, "bad": bad}})
 	}
 }
 
